@@ -20,7 +20,7 @@ sed -i "s#/repo/#$M/repo/#g" $M/harness/Cargo.toml $M/harness/build.rs $M/harnes
 if ! cargo build --release --manifest-path $M/harness/Cargo.toml --target-dir $M/target >$M/build.log 2>&1; then
   echo "BUILD FAILED with patch:"; grep -E "^error" -A 6 $M/build.log | head -30; exit 2
 fi
-NEED_LS=0; for id in "$@"; do case $id in C07|C08|C09|C10|C11|C19) NEED_LS=1;; esac; done
+NEED_LS=0; for id in "$@"; do case $id in C07|C08|C09|C10|C11|C14|C19) NEED_LS=1;; esac; done
 if [ $NEED_LS = 1 ]; then
   cargo build --release --manifest-path $M/repo/Cargo.toml -p harper-ls --config 'profile.release.lto=false' --config 'profile.release.codegen-units=16' --config 'profile.release.strip=false' --target-dir $M/target-ls >$M/build-ls.log 2>&1 || { echo "harper-ls BUILD FAILED"; grep -E "^error" -A 6 $M/build-ls.log | head; exit 2; }
   export HV_LS_BIN=$M/target-ls/release/harper-ls
